@@ -38,6 +38,8 @@ def cases():
     yield ('unreferenced-compressed-manifest-next-to-top-level',
            {'a': b'a', 'Manifest.gz': __import__('gzip').compress(('DATA a 1 SHA1 ' + SHA1_A + '\n').encode())},
            {'Manifest': ['DATA a 1 SHA1 ' + SHA1_A]}, [''])
+    yield ('data-entry-names-sub-manifest', {'sub/b': b'changed'},
+           {'Manifest': ['DATA sub/Manifest 0', 'MANIFEST sub/Manifest 0'], 'sub/Manifest': ['DATA b 1 SHA1 ' + SHA1_A]}, [''])
     yield ('entry-names-directory', {'d/x': b'a'}, {'Manifest': ['DATA d 1 SHA1 ' + SHA1_A]}, [''])
     yield ('entry-beneath-regular-file', {'d': b'a'}, {'Manifest': ['DATA d 1 SHA1 ' + SHA1_A, 'DATA d/x 1 SHA1 ' + SHA1_A]}, [''])
     yield ('unreferenced-sub-manifest', {'sub/x': b'a'}, {'Manifest': [], 'sub/Manifest': []}, ['', 'sub'])
